@@ -1,9 +1,61 @@
 import NmVerif.Proto
+import NmVerif.Index.Broadcast
 namespace NmVerif.Driver.C06
 open NmVerif NmVerif.Proto
 
-def handle : Handler := fun op _args =>
+def fmtBools (l : List Bool) : String := fmtNats (l.map (fun b => if b then 1 else 0))
+
+/-- provenance of a view over an operand filled with `base + flat id` -/
+def provData (v : IxView) (base : Int) : Option (List Int) :=
+  (allIdx v.dst).mapM (fun d => (v.map d).map (fun i => base + (computeOffset i (strides v.src) : Int)))
+
+def handle : Handler := fun op a =>
   match op with
+  | "bshape" => orBad do
+      let ss ← a.natLists "shapes"
+      if ss.length < 2 then none
+      match broadcastShape ss with
+      | some r => pure s!"ok {fmtNats r}"
+      | none => pure "nothing"
+  | "sbt" => orBad do
+      let src ← a.nats "src"
+      let dst ← a.nats "dst"
+      match shapeBroadcastTo src dst with
+      | some (sh, free) => pure s!"ok shape={fmtNats sh} free={fmtBools free} origin={fmtNats (originAxes free)}"
+      | none => pure "nothing"
+  | "free_axes" => orBad do
+      let x ← a.nats "a"
+      let y ← a.nats "b"
+      pure s!"ok {fmtBools (freeAxes x y)}"
+  | "bto_ix" => orBad do
+      let src ← a.nats "src"
+      let dst ← a.nats "dst"
+      match broadcastToView src dst with
+      | none => pure "nothing"
+      | some v =>
+        match (allIdx v.dst).mapM v.map with
+        | some l => pure s!"ok src={fmtNatLists l}"
+        | none => pure "ub"
+  | "bto_view" => orBad do
+      let src ← a.nats "src"
+      let dst ← a.nats "dst"
+      match broadcastToView src dst with
+      | none => pure "nothing"
+      | some v =>
+        match provData v 0 with
+        | some l => pure s!"ok shape={fmtNats v.dst} data={fmtInts l}"
+        | none => pure "ub"
+  | "barrays" => orBad do
+      let ss ← a.natLists "shapes"
+      if ss.length < 2 then none
+      match broadcastArraysViews ss with
+      | none => pure "nothing"
+      | some vs =>
+        let parts := (List.range vs.length).zip vs |>.mapM (fun (k, v) =>
+          (provData v (1000 * (k : Int))).map (fun l => s!"{fmtNats v.dst}:{fmtInts l}"))
+        match parts, vs.head? with
+        | some ps, some v0 => pure s!"ok shape={fmtNats v0.dst} data={"|".intercalate ps}"
+        | _, _ => pure "ub"
   | _ => none
 
 end NmVerif.Driver.C06
